@@ -15,6 +15,11 @@ import ast
 import os
 
 VALUE_CLASSES = {"Dataset", "Ranking", "ScoringScheme", "Element", "KemenyComputingFactory", "OrderedPartition", "Consensus"}
+# algorithm classes: an algorithm object is a configuration (constructor arguments); computing a consensus, answering the
+# applicability predicate or naming itself does not write to it, so that what it answers cannot depend on earlier calls
+ALGORITHM_CLASSES = {"BioCo", "BioConsert", "BordaCount", "CopelandMethod", "ExactAlgorithm", "ExactAlgorithmBase",
+                     "ExactAlgorithmCplex", "ExactAlgorithmCplexForPaperOptim1", "ExactAlgorithmPulp", "KwikSortAbs",
+                     "KwikSortRandom", "PairwiseBasedAlgorithm", "ParCons", "PickAPerm", "RankAggAlgorithm"}
 MUTATORS = {"__init__", "remove_empty_rankings", "remove_elements", "remove_elements_rate_presence_lower_than",
             "_analyse_rankings", "name"}
 WATCH = {"dataset", "scoring_scheme", "ranking", "rankings", "input_ranking", "ranking_consensus", "r_input", "other",
@@ -61,7 +66,8 @@ class FnEffects(ast.NodeVisitor):
             if p in WATCH:
                 self.tainted.add(p)
         is_setter = any(isinstance(d, ast.Attribute) and d.attr == "setter" for d in fn.decorator_list)
-        if cls in VALUE_CLASSES and params[:1] == ["self"] and fn.name not in MUTATORS and not is_setter:
+        if (cls in VALUE_CLASSES or cls in ALGORITHM_CLASSES) and params[:1] == ["self"] and fn.name not in MUTATORS \
+                and not is_setter:
             self.tainted.add("self")
 
     # ---- taint of an expression
@@ -202,6 +208,18 @@ PROP_FILTER = {
     "C16": lambda key: ("dataset.py::Dataset." in key or "ranking.py::Ranking." in key or "element.py" in key),
     # asking a partition (consistent_with, accessors, printing) leaves it as it was
     "C07": lambda key: "ordered_partition.py::OrderedPartition." in key,
+    # an algorithm object is not written to by the calls that use it (no state carried from one call to the next)
+    "C03": lambda key: "/algorithms/" in key,
+    "C04": lambda key: "/algorithms/" in key or "consensus.py" in key,
+    "C05": lambda key: "/algorithms/exact/" in key,
+    "C06": lambda key: "/algorithms/parcons/" in key or "ordered_partition.py" in key,
+    "C08": lambda key: "/algorithms/bioconsert/" in key,
+    "C09": lambda key: "/algorithms/bioconsert/" in key,
+    "C10": lambda key: "/algorithms/pickaperm/" in key,
+    "C11": lambda key: "/algorithms/kwiksort/" in key,
+    "C12": lambda key: "/algorithms/borda/" in key,
+    "C13": lambda key: "/algorithms/copeland/" in key,
+    "C14": lambda key: "/algorithms/" in key and "is_scoring_scheme_relevant" in key,
 }
 
 
